@@ -167,6 +167,9 @@ def check_symbol_table_slots(ctx):
 
 
 def run(ctx):
+    from ..lints import check_caches
+
+    check_caches(ctx, "C05-D5 deserialiser-lints", ['circuits._serde', 'circuits._circuit', 'circuits._gates'])
     repo = ctx.repo
     arms = writer_arms(repo)
     classes = gate_classes(repo)
@@ -310,8 +313,14 @@ def run(ctx):
     bad = [g for g in table if g.name != g.ident]
     ctx.check(len(table) >= 27 and not bad, R4, "circuits._builtin_gates:names", f"{len(table)} built-in gates, name == identifier", f"built-in gate(s) whose name differs from the identifier it is looked up by: {[(g.ident, g.name) for g in bad]} (serialised under the name, looked up by identifier)", repo.module("circuits._builtin_gates").relpath + ":1")
     lookup = repo.func("circuits._builtin_gates:builtin_gate_by_name")
-    ok_lookup = any(isinstance(r, ast.Subscript) and norm(r.value) == "globals()" and norm(r.slice) == positional_params(lookup.node)[0] for r in returned_exprs(lookup.node))
+    lp = positional_params(lookup.node)[0]
+    lrets = returned_exprs(lookup.node)
+    ok_lookup = any(isinstance(r, ast.Subscript) and norm(r.value) == "globals()" and norm(r.slice) == lp for r in lrets)
     ctx.check(ok_lookup, R4, lookup.key, "lookup is globals()[name]", "built-in lookup is no longer by module-level identifier", lookup)
+    # ... by the *exact* name, on every exit: the reader tries the built-in lookup first, so a lookup that also accepts other
+    # spellings (case-folded, stripped, aliased) makes a custom gate with such a name load as the built-in gate
+    loose = [r for r in lrets if not (isinstance(r, ast.Subscript) and norm(r.value) == "globals()" and norm(r.slice) == lp)]
+    ctx.check(not loose, R4, lookup.key + ":exact-name", "every exit looks the exact name up", f"builtin_gate_by_name also answers with {short(loose[0], 80) if loose else ''}: a name that is not a built-in identifier resolves to a built-in gate all the same, and since the reader asks this lookup first, a custom gate of that name (e.g. `h`, `u3`) is read back as the built-in one", f"{lookup.module.relpath}:{loose[0].lineno}" if loose else lookup)
     # ---- order / width preservation in the circuit reader & writers
     cfd = repo.func(f"{SER}:circuit_from_dict")
     calls = circuit_ctor_calls(repo, cfd)
@@ -426,6 +435,17 @@ def run(ctx):
     scope += [f.module.functions[c.func.id] for f in list(scope) for c in body_walk(f.node) if isinstance(c, ast.Call) and isinstance(c.func, ast.Name) and c.func.id in f.module.functions]
     unwraps = any((isinstance(n, ast.Attribute) and n.attr == "wrapped_gate") or (isinstance(n, ast.Call) and dotted(n.func) in ("getattr", "hasattr") and len(n.args) >= 2 and isinstance(n.args[1], ast.Constant) and n.args[1].value == "wrapped_gate") for f in scope for n in body_walk(f.node))
     ctx.check(unwraps, R2, col.key + ":through-wrappers", "custom gate definitions are collected through modifier wrappers", "collect_custom_gate_definitions only recognises a custom gate applied directly: a custom gate under controlled/dagger/power/exp is serialised without its definition, and circuit_from_dict then raises 'Custom gate definition ... missing'", col)
+    # two definitions with one name must be noticed wherever in the circuit they occur: itertools.groupby only groups *adjacent*
+    # equal keys, so grouping an input that is not sorted by the same key compares neighbours only
+    for f in scope:
+        for c in body_walk(f.node):
+            if isinstance(c, ast.Call) and (dotted(c.func) or "").split(".")[-1] == "groupby" and c.args:
+                src = c.args[0]
+                dd = Defs(f.node)
+                while isinstance(src, ast.Name) and len([v for v in dd.defs.get(src.id, []) if isinstance(v, ast.AST)]) == 1:
+                    src = [v for v in dd.defs[src.id] if isinstance(v, ast.AST)][0]
+                is_sorted = isinstance(src, ast.Call) and dotted(src.func) == "sorted" and norm(kwarg(src, "key")) == norm(kwarg(c, "key") or (c.args[1] if len(c.args) > 1 else None))
+                ctx.check(is_sorted, R2, f.key + ":same-name-definitions", "definitions are grouped by name over input sorted by name", f"`{short(c, 90)}` groups definitions by name, but its input is not sorted by that key: groupby only merges neighbours, so two different definitions of one name separated by another custom gate are not refused -- one of them is silently dropped and the gates using it are read back with the other's matrix", f"{f.module.relpath}:{c.lineno}")
     # compositionality of the records: the record of a circuit inside a list is the record `_circuit_to_dict` produced for
     # it, unaltered -- the reader of the list hands each element to the single-circuit reader, which expects a complete
     # record (its own width, operations *and* custom-gate definitions). Moving a key out of the child records couples the
